@@ -51,6 +51,7 @@ PXC = 'pexpect.pxssh.pxssh.'
 PROPS = {
     'C03': {
         'contracts': [E + 'do_search', E + 'existing_data', E + 'new_data', E + 'expect_loop', SS + 'search', SR + 'search',
+                      SS + '__init__', SR + '__init__', E + '__init__',
                       (E + 'do_search', 'ctx:exact'), (E + 'existing_data', 'ctx:exact'), (E + 'new_data', 'ctx:exact'),
                       (E + 'expect_loop', 'ctx:exact'),
                       'pexpect._async_w_await.PatternWaiter.data_received', 'pexpect._async_w_await.expect_async'],
@@ -64,11 +65,12 @@ PROPS = {
     },
     'C20': {
         'contracts': ['pexpect.spawnbase.SpawnBase._coerce_expect_string', 'pexpect.spawnbase.SpawnBase._coerce_expect_re',
-                      'pexpect.spawnbase.SpawnBase.compile_pattern_list', 'pexpect.spawnbase.SpawnBase.expect'],
+                      'pexpect.spawnbase.SpawnBase.compile_pattern_list', 'pexpect.spawnbase.SpawnBase.expect', 'pexpect.spawnbase.SpawnBase.expect_exact'],
         'assumptions': [
             're.compile(text, flags) is a function of (text, string type, flags): equal arguments give patterns selecting the same occurrences (CPython compares compiled patterns exactly so); what a flag means inside the regex engine is the re module\'s contract',
             'str.encode / bytes.decode are modelled as the identity on the code-unit sequence (exact for ASCII text, which is what C20 states; non-ASCII text given to a bytes-mode object raises UnicodeEncodeError in CPython and is outside the property)',
             'bit operations on flag words are an uninterpreted function bitand(x, mask) shared by code and specification',
+            'the object that is no pattern is an opaque value that is no string, compiled pattern, list or class (any other isinstance test on it may go either way); for expect_exact, which iterates whatever it is given, it is additionally taken to be non-iterable - an iterable of patterns is the list form',
         ],
     },
     'C14': {
@@ -114,15 +116,15 @@ PROPS = {
     },
     'C04': {
         'contracts': [E + 'eof', E + 'timeout', E + 'errored', E + 'existing_data', E + 'expect_loop', SS + '__init__', SR + '__init__',
-                      SB + 'expect_list', SB + 'expect_loop', SB + 'expect'] + READS,
+                      SB + 'expect_list', SB + 'expect_loop', SB + 'expect', SB + 'expect_exact'] + READS,
         'assumptions': [
             'spawn.read_nonblocking is used through its interface contract (data | EOF | TIMEOUT | other OSError); that a transport reports EOF again without blocking after the first EOF is not under contract here (pty: blocking isalive() inside ptyprocess, see DESIGN.md section 7 #10)',
             'str(spawn) / str(searcher) used to build the exception message are assumed total here (spawn.__str__ is not yet under contract)',
-            'expect() is under contract (compile_pattern_list then expect_list); expect_exact(), read(), readline() delegate to the entry points above and are not separately under contract in this check',
+            'expect() and expect_exact() are under contract; read(), readline() delegate to the entry points above and are not separately under contract in this check',
         ],
     },
     'C05': {
-        'contracts': [E + 'expect_loop', SB + 'expect_list', SB + 'expect_loop', SB + 'expect', 'pexpect.utils.select_ignore_interrupts',
+        'contracts': [E + 'expect_loop', SB + 'expect_list', SB + 'expect_loop', SB + 'expect', SB + 'expect_exact', 'pexpect.utils.select_ignore_interrupts',
                       'pexpect.utils.poll_ignore_interrupts', 'pexpect.fdpexpect.fdspawn.read_nonblocking',
                       'pexpect.pty_spawn.spawn.read_nonblocking', 'pexpect.pty_spawn.spawn.waitnoecho',
                       'pexpect.popen_spawn.PopenSpawn.read_nonblocking', 'pexpect.socket_pexpect.SocketSpawn.read_nonblocking'],
@@ -215,7 +217,7 @@ PROPS = {
     },
     'C01': {
         'contracts': [E + 'do_search', E + 'existing_data', E + 'new_data', E + 'eof', E + 'timeout', E + 'errored', E + 'expect_loop',
-                      SB + '_set_buffer', SB + 'expect_list', SB + 'expect_loop', SB + 'expect'],
+                      SB + '_set_buffer', SB + 'expect_list', SB + 'expect_loop', SB + 'expect', SB + 'expect_exact'],
         'assumptions': [
             'io.BytesIO/StringIO behave as (content, position) with write-at-position, read-to-end, seek, tell, getvalue (differentially tested against CPython in the thorough tier)',
             'str/bytes slicing, concatenation and len follow CPython semantics (integers mathematical)',
